@@ -871,6 +871,89 @@ static void run_rhumb_orders(Ctx& ctx, bool T) {
   }
 }
 
+// ================================================================= short lines (the short-line branch of the inverse problem)
+// Lengths 1e-5 .. 10 m: here a12 is ~1e-10 .. 1e-4 deg, so a12 is compared RELATIVELY (an absolute tolerance in degrees is
+// blind).  The inverse problem is posed on the direct problem's rounded end point, so its length/azimuth differ from the
+// given ones by the quantisation of (lat2, lon2); a12 is a smooth function of the segment: a12 / s12 is the same for both
+// up to d ln(dsigma/ds)/dalpha <= e'^2 times the (measured) azimuth difference, and up to the absolute round-off of
+// an arc in radians (K eps, i.e. K eps / sigma12 relative).
+static const double K_A12REL = 32;          // eps-multiples; worst observed on the unchanged tree reported as short.a12_rel_over_model
+template <class S> static void run_short(Ctx& ctx, bool T) {
+  typedef typename S::G G; typedef typename S::L L;
+  const std::string sn = S::name();
+  const double lens[] = {1e-5, 1e-4, 1e-3, 1e-2, 0.05, 0.1, 0.2, 0.25, 0.5, 1, 10};
+  const double azis[] = {10, 45, 80, 135, -100};
+  const double lats[] = {0.5, 20, 45, 60, 85, -70};
+  struct EL { double a, f; };
+  const EL els[] = {{WA, WF}, {WA, 0.1}, {WA, -1 / 150.0}};
+  ctx.sub("short-lines/" + sn);
+  for (const EL& el : els) for (double lat1 : lats) {
+    if (!ctx.take()) continue;
+    G g = S::make(el.a, el.f);
+    const double big = std::fmax(el.a, el.a * (1 - el.f));
+    const double tolm = 2 * doc_accuracy_m(S::exactp(), el.a, el.f);
+    const double ep2 = std::fabs(el.f * (2 - el.f)) / ((1 - el.f) * (1 - el.f));
+    int k = 0;
+    for (double azi1 : azis) for (double s12 : lens) {
+      Ctx::Case cse(ctx);
+      const double lon1 = 10.0 * (k++ % 30) - 140;
+      std::string key = sn + " a=" + fmt(el.a) + ",f=" + fmt(el.f) + " short line (" + fmt(lat1) + "," + fmt(lon1) + ") azi1=" + fmt(azi1) + " s12=" + fmt(s12);
+      mc::Fields F{{"solver", sn}, {"f", fmt(el.f)}, {"lat1", fmt(lat1)}, {"azi1", fmt(azi1)}, {"s12", fmt(s12)}};
+      auto FF = [&](const char* kind) { mc::Fields h = F; h.push_back({"kind", kind}); return h; };
+      Out d; d.ret = g.GenDirect(lat1, lon1, azi1, false, s12, G::ALL, d.v[0], d.v[1], d.v[2], d.v[3], d.v[4], d.v[5], d.v[6], d.v[7]);
+      const double lat2 = d.v[0], lon2 = d.v[1];
+      Out iv; iv.ret = g.GenInverse(lat1, lon1, lat2, lon2, G::ALL, iv.v[3], iv.v[0], iv.v[2], iv.v[4], iv.v[5], iv.v[6], iv.v[7]);
+      const double coslat = std::cos(lat2 * Math::degree());
+      auto miss = [&](const Out& o) { return std::hypot((o.v[0] - lat2) * Math::degree() * big, std::remainder(o.v[1] - lon2, 360.0) * Math::degree() * big * coslat); };
+      // ---- a12 is one quantity whichever call returns it (relative)
+      { double dazi = std::fabs(std::remainder(iv.v[0] - azi1, 360.0)) * Math::degree();
+        // the arc is obtained from sines/cosines (or as a difference of O(1) terms): its absolute error is eps-level in radians
+        double model = EPS * (1 + 1 / (std::fabs(d.ret) * Math::degree())) + 2 * ep2 * dazi / K_A12REL;
+        double rel = std::fabs(iv.ret / iv.v[3] - d.ret / s12) / (d.ret / s12);
+        ctx.worst("short.a12_rel_over_model", rel / model, key);
+        if (!(rel <= K_A12REL * model)) ctx.fail(key + " a12", "a12/s12 of Inverse " + fx(iv.ret) + "/" + fx(iv.v[3]) + " differs from a12/s12 of Direct " + fx(d.ret) + "/" + fx(s12) + " by " + fmt(rel) + " relative", FF("short-a12")); }
+      // the inverse recovers the length within the documented accuracy
+      ctx.worst("short.s12_roundtrip_over_tol", std::fabs(iv.v[3] - s12) / tolm, key);
+      if (!(std::fabs(iv.v[3] - s12) <= tolm)) ctx.fail(key + " s12", "Inverse(Direct) s12 = " + fx(iv.v[3]), FF("short-s12"));
+      // ---- InverseLine: third point = point 2
+      { L l = g.InverseLine(lat1, lon1, lat2, lon2, G::ALL);
+        double ra = std::fabs(l.Arc() - iv.ret) / std::fabs(iv.ret);
+        ctx.worst("short.inverseline_arc_rel_eps", ra / EPS, key);
+        if (!(ra <= 4 * EPS)) ctx.fail(key + " InverseLine.Arc", "Arc() = " + fx(l.Arc()) + " but Inverse returns a12 = " + fx(iv.ret), FF("short-inverseline-arc"));
+        double ds = std::fabs(l.Distance() - iv.v[3]);
+        ctx.worst("short.inverseline_distance_over_tol", ds / tolm, key);
+        ctx.worst("short.inverseline_distance_rel", ds / iv.v[3], key);
+        if (!(ds <= tolm)) ctx.fail(key + " InverseLine.Distance", "Distance() = " + fx(l.Distance()) + " but Inverse gives s12 = " + fx(iv.v[3]), FF("short-inverseline-distance"));
+        Out oa = genpos(l, true, l.Arc(), G::ALL), od = genpos(l, false, l.Distance(), G::ALL);
+        ctx.worst("short.inverseline_endpoint_over_tol", std::fmax(miss(oa), miss(od)) / tolm, key);
+        if (!(miss(oa) <= tolm)) ctx.fail(key + " InverseLine@Arc", "ArcPosition(Arc()) misses point 2 by " + fmt(miss(oa)) + " m", FF("short-inverseline-endpoint"));
+        if (!(miss(od) <= tolm)) ctx.fail(key + " InverseLine@Distance", "Position(Distance()) misses point 2 by " + fmt(miss(od)) + " m", FF("short-inverseline-endpoint"));
+        // the arc and the distance of the third point describe the same point of the line: s12 of ArcPosition(Arc()) == Distance()
+        double rs = std::fabs(oa.v[3] - l.Distance()) / std::fabs(l.Distance());
+        ctx.worst("short.inverseline_s12_at_arc_rel_eps", rs / EPS, key);
+        // and the fraction of the line covered, measured in arc and in distance, agrees: (relative, catches a shortened arc)
+        double fr = std::fabs(oa.v[3] / iv.v[3] - 1);
+        ctx.worst("short.inverseline_covered_fraction_dev", fr, key);
+        if (!(fr <= 1e-6 + tolm / iv.v[3])) ctx.fail(key + " InverseLine fraction", "ArcPosition(Arc()) covers " + fmt(oa.v[3] / iv.v[3]) + " of the distance to point 2", FF("short-inverseline-fraction")); }
+      // ---- DirectLine: third point = point 2 of the direct problem
+      { L l = g.DirectLine(lat1, lon1, azi1, s12, G::ALL);
+        if (!mc::same_bits(l.Distance(), s12)) ctx.fail(key + " DirectLine.Distance", "Distance() != defining s12", FF("short-directline-distance"));
+        double ra = std::fabs(l.Arc() - d.ret) / std::fabs(d.ret);
+        ctx.worst("short.directline_arc_rel_eps", ra / EPS, key);
+        if (!(ra <= 4 * EPS)) ctx.fail(key + " DirectLine.Arc", "Arc() = " + fx(l.Arc()) + " but Direct returns a12 = " + fx(d.ret), FF("short-directline-arc"));
+        Out od = genpos(l, false, l.Distance(), G::ALL), oa = genpos(l, true, l.Arc(), G::ALL);
+        if (!out_same(od, d)) ctx.fail(key + " DirectLine@Distance", "Position(Distance()) " + outs(od) + " != Direct " + outs(d), FF("short-directline-position"));
+        ctx.worst("short.directline_arc_endpoint_over_tol", miss(oa) / tolm, key);
+        if (!(miss(oa) <= tolm)) ctx.fail(key + " DirectLine@Arc", "ArcPosition(Arc()) misses the direct end point by " + fmt(miss(oa)) + " m", FF("short-directline-endpoint"));
+        // arc-specified position returns the distance (relative)
+        double rs = std::fabs(oa.v[3] - s12) / s12;
+        ctx.worst("short.arc_vs_distance_s12_rel", rs, key);
+        if (!(rs <= 1e-6 + tolm / s12)) ctx.fail(key + " arc-vs-distance", "ArcPosition(a12 of the direct problem) returns s12 = " + fx(oa.v[3]) + " for " + fx(s12), FF("short-arc-vs-distance")); }
+      if (ctx.want_sample()) ctx.sample(key + " -> a12 direct " + fmt(d.ret) + " inverse " + fmt(iv.ret));
+    }
+  }
+}
+
 
 int main(int argc, char** argv) {
   Ctx ctx(argc, argv);
@@ -890,5 +973,9 @@ int main(int argc, char** argv) {
   run_orders<ExactT>(ctx, T);
   run_orders<SeriesExactT>(ctx, T);
   run_rhumb_orders(ctx, T);
+  ctx.bound("short-lines", "lengths {1e-5,1e-4,1e-3,1e-2,0.05,0.1,0.2,0.25,0.5,1,10} m x azimuths {10,45,80,135,-100} x latitudes {0.5,20,45,60,85,-70} x {WGS84, f=0.1, f=-1/150} x 3 solvers (both tiers)");
+  run_short<SeriesT>(ctx, T);
+  run_short<ExactT>(ctx, T);
+  run_short<SeriesExactT>(ctx, T);
   return ctx.finish();
 }
